@@ -209,6 +209,7 @@ pub struct DAttrs {
     pub x: u8,
 }
 // inline bounds, const and defaulted parameters (D9): these only compile with the repaired builder
+#[cfg(feature = "generic-subjects")]
 #[derive(SplDiscriminate)]
 #[discriminator_hash_input("verif::inline_bound")]
 pub struct DInline<T: Clone, const N: usize, U = u8> {
@@ -231,7 +232,8 @@ pub fn run_c18(ctx: &Ctx) -> Report {
         ("DLong", "0123456789012345678901234567890123456789012345678901234567890123456789", DLong::SPL_DISCRIMINATOR, DLong::SPL_DISCRIMINATOR_SLICE),
         ("DWhere", "verif::where", DWhere::<u8>::SPL_DISCRIMINATOR, DWhere::<u8>::SPL_DISCRIMINATOR_SLICE),
         ("DAttrs", "verif::extra_attrs", DAttrs::SPL_DISCRIMINATOR, DAttrs::SPL_DISCRIMINATOR_SLICE),
-        ("DInline", "verif::inline_bound", DInline::<u8, 3>::SPL_DISCRIMINATOR, DInline::<u8, 3>::SPL_DISCRIMINATOR_SLICE), 
+        #[cfg(feature = "generic-subjects")]
+        ("DInline", "verif::inline_bound", DInline::<u8, 3>::SPL_DISCRIMINATOR, DInline::<u8, 3>::SPL_DISCRIMINATOR_SLICE),
     ];
     for (name, input, d, sl) in compiled {
         let macro_bytes: [u8; 8] = d.into();
